@@ -147,7 +147,7 @@ class History(BObl):
             'defaults); after every step the target is parsed again: its view / exception class must equal the first '
             'one and view(B) must be unchanged; non-trivial = history non-empty')
     bound = ('quick: 1-step histories: every target (54) x 6 parse-step classes + 14 structurally rich targets x 16 '
-             'mutations, + 250 seeded histories of length <=6; thorough: every target x every step class + thorough: 8000 seeded histories of length <=10')
+             'mutations, + 250 seeded histories of length <=6; thorough: every target x every step class + 8000 seeded histories of length <=10')
     budget = {'quick': 20.0, 'thorough': 120.0}
 
     def step_classes(self):
